@@ -7,6 +7,7 @@ import PoseVerif.Driver.Collate
 import PoseVerif.Driver.PoseOps
 import PoseVerif.Model.Frames
 import PoseVerif.Model.OpenPose
+import PoseVerif.Model.Select
 /-!
 `posedriver`: one JSON request per input line, one JSON answer per output line.
 Runs the executable definitions of the model (the same ones the theorems are about).
@@ -155,6 +156,28 @@ def handle (j : Json) : R Json := do
   | "masked_prog" => runMaskedProg j
   | "collate" => runCollate j
   | "body_ops" => runBodyOps j
+  | "select" =>
+    let comps ← (← (← j.getObjVal? "components").getArr?).toList.mapM compOfJson
+    let hexList (v : Json) : R (List String) := do
+      (← v.getArr?).toList.mapM fun x => do
+        match (fromHex (← x.getStr?)).bind stringOfBytes? with
+        | some s => pure s
+        | none => throw "bad name"
+    let request ← hexList (← j.getObjVal? "request")
+    let points : Option (List (String × List String)) ← match j.getObjVal? "points" with
+      | .ok Json.null => pure none
+      | .ok v => do
+        let ps ← (← v.getArr?).toList.mapM fun kv => do
+          let a ← kv.getArr?
+          match (fromHex (← a[0]!.getStr?)).bind stringOfBytes? with
+          | some k => pure (k, ← hexList a[1]!)
+          | none => throw "bad key"
+        pure (some ps)
+      | .error _ => pure none
+    let res := if (j.getObjValAs? String "mode").toOption == some "remove" then removeComponents comps request points else getComponents comps request points
+    match res with
+    | some (cs, ixs) => pure (Json.mkObj [("ok", Json.bool true), ("components", Json.arr (cs.toArray.map compToJson)), ("indexes", Json.arr (ixs.toArray.map natJ))])
+    | none => pure failJ
   | "frame_id" =>
     let name ← getStrHex j "name"
     match frameId name with
